@@ -224,6 +224,17 @@ def plan_refs(model, rng, thorough):
             sites.append({"kind": "doc:" + e.kind, "ent": e.eid, "refs": e.refs})
     for sk in ("project_file", "summary", "page_top", "page_nested"):
         sites.append({"kind": sk, "ent": None, "refs": battery(None, 10 if not thorough else 30)})
+    # references to dummy arguments (of a module procedure, of a procedure contained in another one, of a procedure declared in an
+    # interface block): whether they become links is left open, but a link must lead to an element that exists
+    model["argrefs"] = {}
+    for where, texts in (("host", ["[[inner:weight]]", "[[inner:weight(variable)]]", "[[area:radius]]"]), ("inner", ["[[weight]]", "[[inner:weight]]"]),
+                         ("module", ["[[host_p:inner]]", "[[extp:arg1]]", "[[area:radius]]", "[[inner:weight]]"])):
+        refs = []
+        for t in texts:
+            k[0] += 1
+            refs.append({"k": k[0], "ref": t, "expected": [], "fallback_to_parent": False, "code": False, "either": True})
+        model["argrefs"][where] = refs
+        sites.append({"kind": "doc:argument_refs_" + where, "ent": None, "refs": refs})
     return sites
 
 
@@ -251,7 +262,7 @@ def render(model, sites):
     files = {}
     for fobj, m in ((model["fa"], model["ma"]), (model["fb"], model["mb"])):
         L = doc(fobj) + [""]
-        L += [f"module {m.name}"] + doc(m) + ["implicit none"]
+        L += [f"module {m.name}"] + doc(m) + (["!!", "!! " + ref_text(model["argrefs"]["module"])] if (m is model["ma"] and model.get("argrefs")) else []) + ["implicit none"]
         ch = {c.name + ":" + c.kind: c for c in m.children}
         t = ch["shape:type"]
         tc = {c.name: c for c in t.children}
@@ -260,6 +271,8 @@ def render(model, sites):
         L += ["interface shape"] + doc(ch["shape:proc"]) + ["module procedure make_shape", "end interface"]
         if "callback:absint" in ch:
             L += ["abstract interface", "subroutine callback(x)"] + doc(ch["callback:absint"]) + ["real, intent(in) :: x", "end subroutine", "end interface"]
+        if m is model["ma"] and model.get("argrefs"):
+            L += ["interface", "subroutine extp(arg1)", "!! extp doc", "real :: arg1", "!! arg1 doc", "end subroutine extp", "end interface"]
         L += ["contains"]
         f = ch["area:proc"]
         fc = {c.name: c for c in f.children}
@@ -269,6 +282,10 @@ def render(model, sites):
         for nm in ("setup", "only_b"):
             if nm + ":proc" in ch:
                 L += [f"subroutine {nm}()"] + doc(ch[nm + ":proc"]) + [f"end subroutine {nm}"]
+        if m is model["ma"] and model.get("argrefs"):
+            ar = model["argrefs"]
+            L += ["subroutine host_p()", "!! host doc " + ref_text(ar["host"]), "contains", "function inner(weight) result(w2)", "!! inner doc " + ref_text(ar["inner"]),
+                  "real, intent(in) :: weight", "!! weight doc", "real :: w2", "w2 = weight", "end function inner", "end subroutine host_p"]
         L += [f"end module {m.name}"]
         if m is model["mb"]:
             pg = [e for e in E.values() if e.kind == "program"][0]
@@ -310,6 +327,8 @@ def case(arg):
         opts = {"project": f"P{seed}", "src_dir": "./src", "output_dir": "./doc", "page_dir": "./pages", "preprocess": False, "parallel": 0, "graph": False,
                 "search": False, "display": ["public", "private", "protected"], "proc_internals": True, "quiet": True,
                 "summary": ref_text(sbyk["summary"]["refs"]), "extra_filetypes": "inc !"}
+        if seed % 4 == 1:
+            opts["project_url"] = "https://example.org/docs"  # where the site will be published: [[references]] stay links between its pages
         site.write_project_file(base, opts, body="Front matter. " + ref_text(sbyk["project_file"]["refs"]) + "\n")
         # run from a *different* working directory than the project (links must not depend on the cwd)
         st, r = core.run_alone(run_case, {"root": base}, timeout=300)
@@ -385,6 +404,15 @@ def case(arg):
                     am = re.search(r"<a\s[^>]*href=[\"']([^\"']*)[\"']", frag)
                     ctxk = s["kind"]
                     kfb = {"site": ctxk, "shown_on": rel.split("/")[0] if "/" in rel else rel, "ref_form": re.sub(r"\w+", "n", rf["ref"]).replace("n(n)", "n(q)")}
+                    if rf.get("either"):
+                        if am and am.group(1):
+                            got, err = tracers_at(rel, am.group(1))
+                            if err:
+                                kf = {"kind": "link_does_not_resolve_from_page", "why": err.split(":")[0], **kfb}
+                                if json.dumps(kf) not in seen:
+                                    seen.add(json.dumps(kf))
+                                    viol.append({"kf": kf, "w": {"seed": seed, "ref": rf, "page": rel, "href": am.group(1), "error": err}})
+                        continue
                     if rf["code"]:
                         if am or "[[" not in frag:
                             kf = {"kind": "reference_in_code_span_rewritten", **kfb}
